@@ -210,6 +210,16 @@ def run_grid(shard, ctx):
                     r.count('digit_counts_beyond_a_double')
                     if not outcome_matches(out, [x], exact=True):
                         report(r, ID, None, {'fn': fn, 'text': text, 'digits': n, 'how': 'override'}, out.brief(), x, monitor='decimal-quantize')
+        # ... and amounts that have no digits behind the point at all, hundreds of digits in front of it
+        for text in (f'{sign}1e300', f'{sign}1.5e300', f'{sign}9.99e307', f'{sign}123456789012345e290', f'{sign}1e22', f'{sign}{ip + 1}e150'):
+            x = float(text)
+            for n in (0, 1, 17, 99, 100, 101, 250, 308, 330, 331):
+                ov = [(0, 'A1', x), (0, 'B1', n)]
+                for (fn, cell), out in zip(FCELL.items(), book.values(0, list(FCELL.values()), ov)):
+                    r.ev()
+                    r.count('huge_amounts_at_decimal_positions')
+                    if not outcome_matches(out, [x], exact=True):
+                        report(r, ID, None, {'fn': fn, 'text': text, 'digits': n, 'how': 'override'}, out.brief(), x, monitor='decimal-quantize')
     r.nontrivial_disjoint += nt
     r.sample({'text': f'{sign}{ip}.{fl[len(fl) // 2]:04d}', 'digits': DIGITS, 'functions': list(FCELL)})
 
